@@ -7,6 +7,8 @@
 
 #include <libxml/parser.h>
 
+#include <set>
+
 #include "c14_writer.h"
 #include "gen.h"
 #include "prop.h"
@@ -88,8 +90,18 @@ void run(Src &src, Case &c)
     C14Options o;
     o.version = layout.flip(45) ? 10 : 11;
     unsigned sp = static_cast<unsigned>(layout.below(100));
-    o.special = sp < 70 ? C14Special::NONE : sp < 78 ? C14Special::EXPLICIT_NONE : sp < 84 ? C14Special::SPELLING_IN_MATH : sp < 91 ? C14Special::SPLIT_GROUPS : C14Special::DEEP_EXTRAS;
-    uint64_t mask = layout.below(1u << 9);
+    // (the ranges of the first four special classes are kept as they were, so that saved tapes keep their meaning)
+    o.special = sp < 40   ? C14Special::NONE
+                : sp < 45 ? C14Special::MATH_ELEMENT_ID
+                : sp < 50 ? C14Special::MATHML_NS_ANCESTOR
+                : sp < 55 ? C14Special::GROUP_CONNECTION_ID
+                : sp < 63 ? C14Special::SPLIT_TREES
+                : sp < 70 ? C14Special::SCOPED_UNITS_COPIES
+                : sp < 78 ? C14Special::EXPLICIT_NONE
+                : sp < 84 ? C14Special::SPELLING_IN_MATH
+                : sp < 91 ? C14Special::SPLIT_GROUPS
+                          : C14Special::DEEP_EXTRAS;
+    uint64_t mask = layout.below(1u << 12);
     o.unitsInComponents = (mask & 1) != 0;
     o.cmetaId = (mask & 2) != 0;
     o.oldSpellings = (mask & 4) != 0 || o.special == C14Special::SPELLING_IN_MATH;
@@ -99,6 +111,9 @@ void run(Src &src, Case &c)
     o.pretty = (mask & 64) != 0;
     o.explicitDefaults = (mask & 128) != 0;
     o.mixIds = (mask & 256) != 0;
+    o.mathIds = (mask & 512) != 0 || o.special == C14Special::MATH_ELEMENT_ID;
+    o.mathmlPrefix = (mask & 1024) != 0;
+    o.elementPrefix = (mask & 2048) != 0;
     bool validate = layout.flip(20);
 
     GenOpts g;
@@ -126,6 +141,79 @@ void run(Src &src, Case &c)
                     size_t e = mth.find('"', p + key.size());
                     mth.replace(p + key.size(), e - p - key.size(), layout.flip(50) ? "metre" : "litre");
                 }
+            }
+        }
+    }
+    if (o.mathIds) {
+        // cmeta:id inside MathML (on <math> itself or on the first <apply>), with a local declaration of the prefix; the
+        // writer may drop the local declaration and rely on the one of the model element. The 2.0 side keeps this math.
+        int n = 0;
+        for (auto &comp : spec.comps) {
+            for (auto &mth : comp.math) {
+                if (o.special != C14Special::MATH_ELEMENT_ID && !layout.flip(60)) {
+                    continue;
+                }
+                const std::string idAttr = " cmeta:id=\"mid_" + std::to_string(++n) + "\"";
+                bool onMath = o.special == C14Special::MATH_ELEMENT_ID || layout.flip(40);
+                size_t ap = mth.find("<apply>");
+                if (!onMath && ap != std::string::npos) {
+                    mth.insert(ap + 6, idAttr);
+                } else {
+                    onMath = true;
+                }
+                mth.insert(5, std::string(" xmlns:cmeta=\"http://www.cellml.org/metadata/1.0#\"") + (onMath ? idAttr : std::string()));
+            }
+        }
+    }
+    if (o.special == C14Special::SCOPED_UNITS_COPIES) {
+        // make the class more likely to be realised: a units that no other units refers to is given to one unmapped
+        // variable in each of two local components
+        std::set<std::pair<int, int>> mapped;
+        for (const auto &cn : spec.conns) {
+            for (const auto &mp : cn.maps) {
+                mapped.insert({cn.c1, mp.v1});
+                mapped.insert({cn.c2, mp.v2});
+            }
+        }
+        for (const auto &u : spec.units) {
+            bool referred = u.import >= 0 || u.units.empty();
+            for (const auto &v : spec.units) {
+                for (const auto &child : v.units) {
+                    referred = referred || child.ref == u.name;
+                }
+            }
+            if (referred) {
+                continue;
+            }
+            int done = 0;
+            for (size_t ci = 0; ci < spec.comps.size() && done < 2; ++ci) {
+                auto &comp = spec.comps[ci];
+                if (comp.import >= 0) {
+                    continue;
+                }
+                for (size_t vi = 0; vi < comp.vars.size(); ++vi) {
+                    if (mapped.count({static_cast<int>(ci), static_cast<int>(vi)}) == 0) {
+                        comp.vars[vi].units = u.name;
+                        ++done;
+                        break;
+                    }
+                }
+            }
+            break;
+        }
+    }
+    if (o.special == C14Special::GROUP_CONNECTION_ID) {
+        bool enc = false;
+        for (const auto &comp : spec.comps) {
+            enc = enc || comp.parent >= 0;
+        }
+        if (enc) {
+            spec.encId = "enc_id_on_group";
+        }
+        int n = 0;
+        for (auto &cn : spec.conns) {
+            if (cn.id.empty() && !cn.maps.empty()) {
+                cn.id = "conn_id_" + std::to_string(++n);
             }
         }
     }
@@ -163,6 +251,10 @@ void run(Src &src, Case &c)
     if (doc.nsOnComponent) c.cls("cellml-ns-on-component");
     if (doc.nsOnCn) c.cls("cellml-ns-on-cn");
     if (doc.nsOtherPrefix) c.cls("cellml-ns-other-prefix");
+    if (doc.mathmlPrefixed) c.cls("mathml-prefixed");
+    if (doc.cellmlElementsPrefixed) c.cls("cellml-elements-prefixed");
+    if (o.mathIds && doc.cmetaIdUsed) c.cls("cmeta-id-in-math");
+    if (doc.cmetaDeclOnModelOnly) c.cls("cmeta-declared-on-model-only");
     if (doc.cmetaIdUsed) c.cls("cmeta-id");
     if (doc.oldSpellingUsed) c.cls("old-spelling");
     if (doc.extrasWritten > 0) c.cls("extras");
@@ -201,6 +293,11 @@ void run(Src &src, Case &c)
             std::string sig = "C14.issue-level|" + loc;
             if (special && o.special == C14Special::DEEP_EXTRAS) {
                 sig = "C14.issue-level|deep-extras:" + doc.specialDetail + "|" + loc;
+            } else if (special && o.special == C14Special::SPLIT_TREES && is->description().find("is not unique") != std::string::npos) {
+                std::string got = dumpModel(m);
+                c.fail("C14.encapsulation|split-trees", "the encapsulation hierarchy is written as sibling component_ref trees of one group (a>b, b>c); the permissive parser reported an ERROR:\n"
+                                                            + dumpIssues(parser) + (got != expected ? "A = model built through the API, B = permissively parsed 1.x document\n" + firstDiff(expected, got) : std::string("(content equal)")));
+                return;
             } else if (special && o.special == C14Special::SPLIT_GROUPS && is->description().find("more than one encapsulation") != std::string::npos) {
                 std::string got = dumpModel(m);
                 c.fail("C14.encapsulation|split-groups", "the encapsulation hierarchy is spread over several encapsulation groups (" + std::to_string(doc.groups) + " group elements in the document); the permissive parser reported an ERROR and used the first encapsulation group only:\n"
@@ -220,7 +317,22 @@ void run(Src &src, Case &c)
     if (got != expected) {
         std::string kind = diffKind(expected, got);
         std::string sig = "C14.content|" + kind;
-        if (special && o.special == C14Special::EXPLICIT_NONE && kind == "variable-interface") {
+        if (special && o.special == C14Special::MATH_ELEMENT_ID && kind == "math") {
+            sig = "C14.math|prefixed-attribute-on-math-element";
+        } else if (special && o.special == C14Special::MATHML_NS_ANCESTOR && kind == "math") {
+            sig = "C14.math|mathml-namespace-on-ancestor";
+        } else if (special && o.special == C14Special::GROUP_CONNECTION_ID && (kind == "model-name" || kind == "equivalence")) {
+            sig = "C14.ids|id-on-group-or-connection-lost";
+        } else if (special && o.special == C14Special::SCOPED_UNITS_COPIES) {
+            std::set<std::string> names;
+            bool duplicate = false;
+            for (size_t i = 0; i < m->unitsCount(); ++i) {
+                duplicate = !names.insert(m->units(i)->name()).second || duplicate;
+            }
+            if (duplicate) {
+                sig = "C14.units|component-scoped-copies";
+            }
+        } else if (special && o.special == C14Special::EXPLICIT_NONE && kind == "variable-interface") {
             sig = "C14.interface|explicit-none";
         } else if (special && o.special == C14Special::SPELLING_IN_MATH && kind == "math") {
             sig = "C14.math|old-spelling-in-cn";
@@ -263,7 +375,12 @@ void run(Src &src, Case &c)
     }
 
     // ---- validator (lazily: the MathML DTD is parsed per math block)
-    if (validate) {
+    if (validate && doc.mathmlPrefixed) {
+        // The validator's MathML DTD step is not namespace aware: it rejects <m:math xmlns:m="...MathML"> although the
+        // parser carried the math over correctly (same for a 2.0 document). Not part of the C14 statement: oracle not applied.
+        c.cls("validator-not-consulted:prefixed-mathml");
+        c.count("excluded:validator-oracle-on-prefixed-mathml");
+    } else if (validate) {
         auto v0 = Validator::create();
         v0->validateModel(b.model);
         if (v0->errorCount() == 0) {
